@@ -939,14 +939,14 @@ func foRelay(rng *rand.Rand, calls []foCall, appendArg2 bool) (labels []int64, c
 // ---------------------------------------------------------------- fo_chaos (oracle only)
 
 // a net.Conn whose Write blocks for good after a byte budget (a stalled peer)
-type stallConn struct {
+type foStallConn struct {
 	net.Conn
 	mu     sync.Mutex
 	budget int
 	stop   chan struct{}
 }
 
-func (s *stallConn) Write(b []byte) (int, error) {
+func (s *foStallConn) Write(b []byte) (int, error) {
 	s.mu.Lock()
 	s.budget -= len(b)
 	stalled := s.budget < 0
@@ -957,7 +957,7 @@ func (s *stallConn) Write(b []byte) (int, error) {
 	}
 	return s.Conn.Write(b)
 }
-func (s *stallConn) Close() error {
+func (s *foStallConn) Close() error {
 	s.mu.Lock()
 	select {
 	case <-s.stop:
@@ -982,7 +982,7 @@ func foChaos(rng *rand.Rand, kind int) (verdict string, detail string) {
 		return "harness: " + err.Error(), ""
 	}
 	defer cli.Close()
-	var stalls []*stallConn
+	var stalls []*foStallConn
 	var stallMu sync.Mutex
 	mkRelay := func(sendBuf int, stallAfter int, maxTimeout time.Duration) (*tchannel.Channel, error) {
 		rh := relaytest.NewStubRelayHost()
@@ -995,7 +995,7 @@ func foChaos(rng *rand.Rand, kind int) (verdict string, detail string) {
 				if err != nil {
 					return nil, err
 				}
-				sc := &stallConn{Conn: c, budget: stallAfter, stop: make(chan struct{})}
+				sc := &foStallConn{Conn: c, budget: stallAfter, stop: make(chan struct{})}
 				stallMu.Lock()
 				stalls = append(stalls, sc)
 				stallMu.Unlock()
